@@ -1295,6 +1295,16 @@ class Renderer:
                         raise G2CError('%s (in %s, expression %s%s)' % (e, fr.f.pretty, var, chain))
                     outp += op + '_base_' + cn(bq)
                     q = bq
+                elif nm == '_M_refcount' and q and q.startswith('std::__shared_ptr<') and not (self.layouts.get(q) or {}).get('members'):
+                    # the control block pointer of an opaque std::shared_ptr: its second word
+                    outp = '(*(void **)((char *)&(%s) + 8))' % outp if op == '.' else '(*(void **)((char *)(%s) + 8))' % outp
+                    q = '@sp_refcount'
+                elif nm == '_M_pi' and q == '@sp_refcount':
+                    q = None
+                elif nm == '_M_ptr' and q and q.startswith('std::__shared_ptr<') and not (self.layouts.get(q) or {}).get('members'):
+                    # the pointer of an opaque std::shared_ptr: its first word (libstdc++ layout: _M_ptr, _M_refcount)
+                    outp = '(*(void **)&(%s))' % outp if op == '.' else '(*(void **)(%s))' % outp
+                    q = None
                 else:
                     outp += op + nm
                     q2 = field_type(q, nm) if q else None
